@@ -288,6 +288,36 @@ fn run_generated(ctx: &Ctx) -> CheckResult {
             }
         }
     }
+    // one large slice (zeros, lazily mapped): 2^28 + 1000 bytes fed by ONE update and by hash_buf
+    if ctx.config == "default" {
+        let big = vec![0u8; (1usize << 28) + 1000];
+        let res = super::common::par_map(ctx.threads, &vs, |va| -> Result<(), String> {
+            let v = va.v();
+            let want = ctx.api.len_new(big.len() as u32);
+            let mut g = va.generator();
+            g.update(&big);
+            if g.processed_len() != Some(big.len() as u32) {
+                return Err(format!("{}: processed_len() = {:?} after one update with {} bytes", v.name, g.processed_len(), big.len()));
+            }
+            for oi in 0..32 {
+                if let Ok(h) = g.finalize(Opts::from_index(oi)) {
+                    if Some(h.lvalue()) != want {
+                        return Err(format!("{}: hash of one {}-byte slice under options {} carries length code {} but new({}) = {:?}", v.name, big.len(), super::common::opt_name(oi), h.lvalue(), big.len(), want));
+                    }
+                }
+            }
+            if g.finalize(Opts::from_index(Opts::PERMISSIVE_INDEX)).is_err() {
+                return Err(format!("{}: {} bytes rejected under the most permissive options", v.name, big.len()));
+            }
+            Ok(())
+        });
+        ctx.ev.borrow_mut().evaluations += 33 * vs.len() as u64;
+        for (va, r) in vs.iter().zip(res) {
+            if let Err(m) = r {
+                return Err(ctx.violation("bigslice", m, json!({"variant": va.v().name})));
+            }
+        }
+    }
     ctx.subcheck("generated", lens.len() as u64);
     if ctx.api.caps().hooks {
         let rnd = ctx.sample_values("genstate", ctx.tier.pick(3000, 60_000), &proptest::prelude::any::<u32>());
@@ -326,6 +356,7 @@ pub fn replay(ctx: &Ctx, check: &str, case: &Value) -> Result<(), String> {
             let va = super::codec::variant_of(ctx.api, case)?;
             case_generated(ctx, va, n as usize, case.get("seed").and_then(|x| x.as_u64()).unwrap_or(0), &live)
         }
+        "bigslice" => Err("re-run the quick tier: the case is deterministic".to_string()).or_else(|_: String| run_generated(ctx).map_err(|v| v.message)),
         "generated_state" => case_generated_state(super::codec::variant_of(ctx.api, case)?, ctx.api, n as u32),
         _ => Err(format!("unknown check {}", check)),
     }
